@@ -5,6 +5,7 @@ import DW.Generated.Tables
 import DW.Model.LoadV1
 import DW.Model.StdLaws
 import DW.Lemmas.Dump
+import DW.Lemmas.RoundTripV1
 
 namespace DW.Props.C02
 open DW DW.Str
@@ -104,5 +105,33 @@ theorem C02_union_container_first_witness (std : Std) :
       = .ok (.seq .list [.str ['a'], .str ['b']]) := by
   simp [loadV1, JVal.kind, v1UnionExact, isSimpleTy, jIter, mapME, v1Str, asStr, mkSeq, Except.mapError,
         pure, Except.pure, bind, Except.bind]
+
+/-! ### the structural round trip -/
+
+/-- **C02 (structure).** Below a main class with `class _(JSONWizard.Meta): v1 = True; v1_key_case = 'CAMEL'` (the default
+dump transform): for every type of the fragment int / float / str / bool / Decimal / Path / UUID / date / time / datetime
+(canonical tokens, under the named `StdLaws`, incl. the `Z` spelling read back by `fromisoformat`) / Optional[·] / list[·] /
+dict[str, ·] / plain dataclass (no customisation of its own, pairwise distinct camelCase keys — `RTV1.PlainCls`), nested
+to any depth, and every conforming value: whatever the dump produces, its JSON image loads back to exactly the value
+through the v1 loader. By induction over the conformance derivation; the dataclass case determines the shape of the
+dumped dict (`RTV1.dumpFields_shape`), shows that the generated field loop finds every field in it (`RTV1.v1Fields_ok`)
+and runs the finish step (`RTV1.v1Finish_ok`). -/
+theorem C02_roundtrip_struct (std : Std) (laws : StdLaws std) (t : Ty) (v : PyVal) (hc : RTV1.Conf std t v) (d : DVal)
+    (h : dumpV std false RTV1.cV1 v = .ok d) : loadV1 std RTV1.cV1 t (RT.toJ d) = .ok v :=
+  RTV1.roundtrip std laws t v hc d h
+
+/-- … and at the top level: `fromdict(cls, json.loads(json.dumps(asdict(x)))) == x` for every instance of a main class
+that declares that Meta. -/
+theorem C02_roundtrip_root (std : Std) (laws : StdLaws std) (ci : ClassInfo) (ftys : List (S × Ty)) (v : PyVal)
+    (hm : ci.cmeta = some RTV1.mV1) (hc : RTV1.Conf std (.cls ci ftys) v) (d : DVal) (h : asdict std {} v = .ok d) :
+    fromdictV1 std (.cls ci ftys) (RT.toJ d) = .ok v :=
+  RTV1.roundtrip_root std laws ci ftys v hm hc d h
+
+/-- the hypotheses are satisfiable: `Root(inner_obj: Inner, by_name: dict[str, Inner], when_at: Optional[datetime])` with
+the v1 Meta and `Inner(val_one: int, tags: list[str])` are both `RTV1.PlainCls` -/
+theorem C02_roundtrip_example :
+    RTV1.PlainCls RTV1.exRoot RTV1.exRootTys ∧ RTV1.PlainCls RTV1.exInner RTV1.exInnerTys ∧
+    RTV1.exRoot.cmeta = some RTV1.mV1 :=
+  ⟨RTV1.exRoot_plain, RTV1.exInner_plain, rfl⟩
 
 end DW.Props.C02
